@@ -434,6 +434,12 @@ class Connection(ExportImport):
                 del obj._p_oid
                 if obj._p_changed:
                     obj._p_changed = False
+            elif oid in self._creating:
+                # A new object that the failed commit had already stored.
+                # It has no committed state to go back to: invalidating it
+                # would throw its only state away.  _invalidate_creating()
+                # disowns it.
+                pass
             else:
                 # Note: If we invalidate a non-ghostifiable object
                 # (i.e. a persistent class), the object will
